@@ -3,6 +3,7 @@ import AITB.Model.Factored
 import AITB.Model.VE
 import AITB.Model.VETable
 import AITB.Model.GVE
+import AITB.Gen.C13Facts
 open AITB AITB.Factored AITB.VE
 
 namespace DrvC13
@@ -161,16 +162,21 @@ def move : P String := do
   let badTag := ents.find? (fun e => !(ascBelow n e.1 && validB (sel e.1 A) e.2.1))
   let badVal := ents.find? (fun e => mSum nobj rs (asgOfTag e.1 e.2.1) != e.2.2)
   -- table-level model of MOVE (generic GVE loop + MOVE callbacks), compared as a set of value vectors
-  let mvals := moveValues A (rs.map (fun r => ⟨r.keys, r.vals, r.values⟩))
+  let mrs : List MRuleT := rs.map (fun r => ⟨r.keys, r.vals, r.values⟩)
+  let mvals := moveValuesWith AITB.Gen.moveKeepsUnmatched nobj A mrs
   let sameSets := mvals.all implV.contains && implV.all mvals.contains
+  -- the repaired variant of the same table-level model must give the specification on every input
+  let fvals := moveValuesWith true nobj A mrs
+  let fixedOK := fvals.all front.contains && front.all fvals.contains
   let v : Verdict := { tag := if n ≤ 1 then "trivial" else s!"move front{front.length}{shape}" }
   let v := v.failIf badTag.isSome s!"MultiObjectiveVariableElimination action_out_of_range"
-  let v := v.failIf (!missing.isEmpty) s!"MultiObjectiveVariableElimination pareto_vector_missing{shape} model_agrees_with_impl={sameSets} missing={missing.map (·.map showQ)} returned={implV.map (·.map showQ)}"
+  let v := v.failIf (!missing.isEmpty) s!"MultiObjectiveVariableElimination pareto_vector_missing{shape} model_agrees_with_impl={sameSets} repaired_model_meets_spec={fixedOK} missing={missing.map (·.map showQ)} returned={implV.map (·.map showQ)}"
   let v := v.failIf (!extra.isEmpty) s!"MultiObjectiveVariableElimination non_pareto_vector_returned{shape} extra={extra.map (·.map showQ)}"
   let v := match badVal with
     | some e => v.failIf true s!"MultiObjectiveVariableElimination action_not_achieving_value{shape} tag={e.1}:{e.2.1} vals={e.2.2.map showQ}"
     | none => v
   let v := v.diffIf (!sameSets) s!"MultiObjectiveVariableElimination.values model={mvals.map (·.map showQ)} impl={implV.map (·.map showQ)}"
+  let v := v.diffIf (!fixedOK) s!"MultiObjectiveVariableElimination.repaired-model model={fvals.map (·.map showQ)} spec={front.map (·.map showQ)}"
   return v.render
 
 def handle (toks : List String) : String :=
